@@ -1,5 +1,432 @@
-"""C08 — Output modes agree; joined records are justified by and faithful to their parts. (INTERIM: run-model correspondence only)"""
-from .. import e2e_streams as es
+"""C08 — Output modes agree; joined records are justified by and faithful to their parts.
+
+Streams:
+  e2e_modes      oracle from the FILE TEXT of the output modes separate, joined and all run on the same data set (independent XMAP parser):
+                 file equalities, AlignedRest flags, partition of the single-pass records into un-joined records and parts of exactly one
+                 joined record, guard / subset / union clauses of every joined record.  Data sets rich in indel, chimeric and partial
+                 queries, several -diff values (0, small, default), boundary runs with -diff == the reference gap of a joined record.
+  e2e_run_model_joinrich / e2e_run_model
+                 the Coordinator/MultiPass model (coq/model/Coordinator.v: program_run), given the seeds captured from the real runs, must
+                 reproduce every output file of every mode (the theorems of coq/props/C08.v are about that model): on the boundary runs
+                 (reference gap == maxDifference), the F7 witness and further join-rich data sets (modes separate/joined/all), and on the
+                 data sets shared with the other properties (all four modes).
+
+Known finding F7 (known_findings.json): AlignmentResultRow.resolve joins only segments[0] of each part.  `ModesStream.finding` recognises it
+by the specific signature  joined != union  AND  union is a valid matching  AND  joined is a subset of the union  AND  a part (captured
+candidate row of the `all` run) carries aligned pairs outside its segments[0] (>= 2 segments with pairs);  every other violation of the
+union clause, and every other clause, is reported as a VIOLATION."""
+import os, json, random, re, collections
+from .. import e2e, e2e_streams as es, common
+from ..common import seeded_rng
+
 ID = 'C08'
-RULE = 'interim'
-STREAMS = [es.RunModelStream()]
+RULE = ('whole COMA runs (Program.run with capture extensions registered through COMA\'s own extension mechanism) in the output modes separate, joined and '
+        'all on the same generated data set (2 references x 200 labels, 20-32 queries of kinds indel / double indel / gap / chimera / inversion / partial / '
+        'exact / noisy on both strands; -diff in {0, 2000, 3000, 5000, 8000, 12000, 20000, 60000, default 100000}, three parameter sets, plus boundary runs '
+        'with -diff equal to (and one below) the reference gap of a joined record of the same data set); mode best is exercised by the shared run-model '
+        'stream (all four modes).  non-trivial = run in which at least one joined record is written')
+TRUSTED = ['harness/e2e.py (data-set writer, independent XMAP text parser, subprocess runner with capture extension)',
+           'harness/e2e_streams.py seed_table: the captured seeds instantiate the abstract seeding function of the run model']
+ASSUMPTIONS = ['coordinates are multiples of 0.5 and parameters lie on the exact grid, so that the float arithmetic of the implementation is exact',
+               'the numerical seeding stage (FFT cross-correlation, peak selection) is abstract in the model: theorems hold for every seeding function']
+
+# ------------------------------------------------------------------------------------------------ data sets
+P_A = ['-d', '1200', '-sp', '800', '-dp', '0.5', '-su', '-100', '-ms', '1500', '-bs', '900']
+P_B = ['-d', '2000', '-sp', '1000', '-dp', '2', '-su', '-500', '-ms', '500', '-bs', '2400', '-sj', '0.5']
+C08_PARAMS = [
+    [],
+    ['-diff', '5000'],
+    P_B,
+    ['-diff', '0'],
+    ['-diff', '12000', '-p', '6', '-ss', '1'],
+    P_A + ['-diff', '20000'],
+    ['-diff', '60000'],
+    ['-diff', '3000', '-p', '1'],
+    ['-diff', '2000'],
+    P_B + ['-diff', '8000'],
+]
+
+
+def gen_joinrich(rng, nref=2, nlab=200, nq=24):
+    """like e2e.gen_mixed, but most queries are indel-containing (gap sizes around the usual -diff values), chimeric or partial,
+    so that the second pass finds something and the join guard is exercised on both sides"""
+    refs = []
+    for rid in rng.sample(range(1, 30), nref):
+        pos = e2e.gen_ref(rng, nlab)
+        refs.append((rid, pos[-1] + 5000.0, pos))
+    refs.sort()
+    qs = []; truth = {}
+    qid = rng.randint(1, 500)
+    for k in range(nq):
+        rid, rl, rp = rng.choice(refs)
+        n = rng.randint(18, 48)
+        a = rng.randint(0, len(rp) - n - 30)
+        w = rp[a:a + n]
+        kind = rng.choice(['indel', 'indel', 'indel2', 'indel2', 'indel2', 'gap', 'gap', 'chimera', 'partial', 'inversion', 'exact', 'noisy'])
+        q = [p - w[0] for p in w]
+        if kind == 'noisy':
+            q = [p + rng.choice([0, 100, -100, 300, -200, 500]) for p in q if rng.random() > 0.1]
+        elif kind == 'indel':          # insertion/deletion in the query: both halves match the same reference region, shifted
+            c = rng.randint(7, max(7, len(q) - 7)); d = rng.choice([3000, 8000, -1500, 20000, 40000, 60000, 100000, 2500, 150000])
+            q = q[:c] + [p + d for p in q[c:]]
+        elif kind == 'indel2':         # a small indel (two chained segments in one candidate row) and a large one (second pass)
+            n = len(q); c1 = rng.randint(6, max(6, n // 3)); c2 = rng.randint(min(n - 6, c1 + 6), max(c1 + 6, n - 6))
+            small = rng.choice([3000, 5000, 8000, -1500, 2500, 4000]); large = rng.choice([20000, 40000, 60000, 30000, 100000])
+            d1, d2 = (small, large) if rng.random() < 0.5 else (large, small)
+            q = q[:c1] + [p + d1 for p in q[c1:c2]] + [p + d1 + d2 for p in q[c2:]]
+        elif kind == 'gap':            # the second half comes from further down the same reference (deletion in the query)
+            c = rng.randint(7, max(7, len(q) - 7)); skip = rng.choice([1, 2, 4, 8, 15, 30])
+            b = min(a + c + skip, len(rp) - (n - c) - 1)
+            w2 = rp[b:b + (n - c)]
+            q = q[:c] + [q[c - 1] + rng.choice([2000, 5000, 9000]) + (p - w2[0]) for p in w2]
+        elif kind == 'chimera':
+            rid2, rl2, rp2 = rng.choice(refs); b = rng.randint(0, len(rp2) - 50); w2 = rp2[b:b + rng.randint(8, 30)]
+            q = q + [q[-1] + 5000 + (p - w2[0]) for p in w2]
+        elif kind == 'inversion':      # second half reversed: same reference, other strand
+            c = rng.randint(7, max(7, len(q) - 7)); tail = q[c:]
+            q = q[:c] + [q[c] + (tail[-1] - p) for p in tail[::-1]]
+        elif kind == 'partial':
+            g = [0.0]
+            for _ in range(rng.randint(6, 14)): g.append(g[-1] + rng.choice([2500, 4200, 7100, 11000, 16000]))
+            if rng.random() < 0.5:
+                q = q + [q[-1] + 4000 + x for x in g]
+            else:
+                q = g + [g[-1] + 4000 + x for x in q]
+        q = sorted(set(round(max(0, p), 1) for p in q))
+        if len(q) < 2:
+            continue
+        rev = rng.random() < 0.5
+        if rev:
+            q = [round(q[-1] - p, 1) for p in q[::-1]]
+        off = rng.choice([0, 20.0, 1234.5])
+        q = [round(p + off, 1) for p in q]
+        qs.append((qid, q[-1] + rng.choice([0.0, 500.0, 3000.0]), q))
+        truth[qid] = dict(kind=kind, ref=rid, start=a, n=n, rev=rev)
+        qid += rng.choice([1, 1, 7])
+    return dict(refs=refs, queries=qs, truth=truth, kind='joinrich')
+
+
+def make_dataset(case):
+    if case.get('gen') != 'joinrich':
+        return es.make_dataset(case['ds_seed'], case['nq'], case.get('nlab', 200))
+    rng = random.Random(case['ds_seed'])
+    ds = gen_joinrich(rng, nref=2, nlab=case.get('nlab', 200), nq=case['nq'])
+    ds['refs'] = [(i, es.half(l), [es.half(p) for p in ps]) for i, l, ps in ds['refs']]
+    ds['queries'] = [(i, es.half(l), sorted(set(es.half(p) for p in ps))) for i, l, ps in ds['queries']]
+    return ds
+
+
+C08_MODES = ['separate', 'joined', 'all']        # `best` writes one file only: C05's business (covered here by the shared run-model stream)
+
+
+def run_dataset(case, modes=C08_MODES, capture_mode='all'):
+    """es.run_dataset with the generator chosen by case['gen']"""
+    ds = make_dataset(case)
+    tag = '%s%d_%d' % ('jr' if case.get('gen') == 'joinrich' else 'ds', case['ds_seed'], case['nq'])
+    e2e.materialise(ds, tag)
+    rp, qp = os.path.join(ds['dir'], 'r.cmap'), os.path.join(ds['dir'], 'q.cmap')
+    jobs = [dict(refpath=rp, qpath=qp, args=['-oM', m] + list(case['extra']), cpus=1, capture=(m == capture_mode)) for m in modes]
+    rs = e2e.run_many(jobs, workers=len(jobs))
+    out = dict(modes={m: es.summarise(r) for m, r in zip(modes, rs)})
+    out['capture'] = rs[modes.index(capture_mode)].capture if capture_mode in modes else []
+    out['refs'] = {str(i): dict(labels=ps, end=l) for i, l, ps in ds['refs']}
+    out['queries'] = {str(i): dict(labels=ps, end=l) for i, l, ps in ds['queries']}
+    out['truth'] = {str(k): v for k, v in ds['truth'].items()}
+    return out
+
+
+# ------------------------------------------------------------------------------------------------ oracle (file text only)
+def rec_key(r):
+    """a record without its XmapEntryID (entry ids are positions in the file)"""
+    return json.dumps({k: v for k, v in r.items() if k != 'id'}, sort_keys=True)
+
+
+def rows_of(out, mode, fk):
+    f = out['modes'][mode]['files'].get(fk)
+    if f is None or 'rows' not in f:
+        return None
+    return f['rows']
+
+
+def same_file(a, b, what, errs, with_ids=True):
+    if a is None or b is None:
+        errs.append('%s: a file is missing' % what); return
+    if len(a) != len(b):
+        errs.append('%s: %d records against %d' % (what, len(a), len(b))); return
+    for x, y in zip(a, b):
+        if (x != y) if with_ids else (rec_key(x) != rec_key(y)):
+            d = [k for k in x if x.get(k) != y.get(k)]
+            errs.append('%s: records of query %s / %s differ in %s' % (what, x['q'], y['q'], d)); return
+
+
+def valid_matching(pairs, rev):
+    """one-to-one and collinear: reference labels strictly ascending, query labels strictly monotone in the direction of the strand"""
+    for (a1, b1), (a2, b2) in zip(pairs, pairs[1:]):
+        if not a1 < a2:
+            return False
+        if (not rev and not b1 < b2) or (rev and not b1 > b2):
+            return False
+    return len(pairs) > 0
+
+
+def captured_rows(out):
+    """candidate rows of the `all` run by (query, reference, strand, pair list)"""
+    tab = collections.defaultdict(list)
+    for c in out.get('capture', []):
+        if c.get('t') != 'row':
+            continue
+        segs = [[(p[1], p[2]) for p in s['pos'] if p[0] == 'P'] for s in c['segs']]
+        pairs = tuple(p for s in segs for p in s)
+        tab[(c['q'], c['r'], bool(c['rev']), pairs)].append(dict(segs=segs, conf=c['conf'], shift=c['shift'], nq=c['nq']))
+    return tab
+
+
+def part_segments(tab, rec, second):
+    """the captured candidate row a written single-pass record was made from -> list of pair lists per segment (None: not captured)"""
+    cands = tab.get((rec['q'], rec['r'], rec['ori'] == '-', tuple(tuple(p) for p in rec['pairs'])), [])
+    try:
+        conf = float(rec['conf'])
+        close = [c for c in cands if abs(c['conf'] - conf) < 0.006]
+        cands = close or cands
+    except ValueError:
+        pass
+    return cands[0]['segs'] if cands else None
+
+
+def analyse(case, out):
+    """decides every clause of C08 on the parsed files; returns (violations, joined-record analyses)"""
+    errs = es.run_failures(out)
+    info = []
+    if errs:
+        return errs, info
+    diff = es.params_of(case['extra'])['diff']
+    all_m, all_1, all_2 = rows_of(out, 'all', 'main'), rows_of(out, 'all', '_1'), rows_of(out, 'all', '_2')
+    j_m, j_1 = rows_of(out, 'joined', 'main'), rows_of(out, 'joined', '_1')
+    s_m, s_1 = rows_of(out, 'separate', 'main'), rows_of(out, 'separate', '_1')
+    if any(x is None for x in (all_m, all_1, all_2, j_m, j_1, s_m, s_1)):
+        return ['an output file of a multi-pass mode is missing (all: main/_1/_2, joined: main/_1, separate: main/_1)'], info
+    for m, fk in (('joined', '_2'), ('separate', '_2'), ('best', '_1'), ('best', '_2')):
+        if m in out['modes'] and rows_of(out, m, fk) is not None:
+            errs.append('mode %s wrote an additional file %s' % (m, fk))
+    # ---- the same alignments in every mode
+    same_file(all_m, j_m, "main file of 'all' vs main file of 'joined'", errs)
+    same_file(all_1, s_m, "_1 file of 'all' vs main file of 'separate'", errs)
+    same_file(all_2, s_1, "_2 file of 'all' vs _1 file of 'separate'", errs)
+    for r in all_1:
+        if r['rest'] != 'False':
+            errs.append("first-pass record of query %d in the _1 file of 'all' carries AlignedRest %s" % (r['q'], r['rest'])); break
+    for r in all_2:
+        if r['rest'] != 'True':
+            errs.append("second-pass record of query %d in the _2 file of 'all' carries AlignedRest %s" % (r['q'], r['rest'])); break
+    # ---- partition: every single-pass record is un-joined or a part of exactly one joined record
+    unj = collections.Counter(rec_key(r) for r in j_1)
+    single = collections.Counter(rec_key(r) for r in all_1 + all_2)
+    joined_by_q = collections.defaultdict(list)
+    for r in j_m:
+        joined_by_q[r['q']].append(r)
+    parts = collections.defaultdict(lambda: dict(first=[], second=[]))
+    for which, rows in (('first', all_1), ('second', all_2)):
+        for r in rows:
+            k = rec_key(r)
+            if unj.get(k, 0) > 0:
+                unj[k] -= 1
+                if any(j['r'] == r['r'] for j in joined_by_q.get(r['q'], [])):
+                    errs.append('%s-pass record of query %d on reference %d is written as un-joined and a joined record of that query on that '
+                                'reference exists too' % (which, r['q'], r['r']))
+                continue
+            js = [j for j in joined_by_q.get(r['q'], []) if j['r'] == r['r']]
+            if len(js) != 1:
+                errs.append('%s-pass record of query %d on reference %d is neither among the un-joined records nor part of exactly one joined '
+                            'record (%d joined records of that query on that reference)' % (which, r['q'], r['r'], len(js)))
+                continue
+            parts[(r['q'], r['r'])][which].append(r)
+    left = [k for k, n in unj.items() if n > 0]
+    if left:
+        errs.append("%d record(s) of the un-joined file (_1 of 'joined') are not single-pass records of the _1/_2 files of 'all'; first: query %s"
+                    % (len(left), json.loads(left[0])['q']))
+    # ---- every joined record
+    tab = None
+    for j in j_m:
+        pp = parts.get((j['q'], j['r']), dict(first=[], second=[]))
+        if len(pp['first']) != 1 or len(pp['second']) != 1:
+            errs.append('joined record of query %d on reference %d does not come from one first-pass and one second-pass record '
+                        '(%d first-pass, %d second-pass records left for it)' % (j['q'], j['r'], len(pp['first']), len(pp['second'])))
+            continue
+        a, b = pp['first'][0], pp['second'][0]
+        tag = 'joined record of query %d on reference %d' % (j['q'], j['r'])
+        if not (a['q'] == b['q'] == j['q'] and a['r'] == b['r'] == j['r']):
+            errs.append('%s: parts name other maps' % tag)
+        if not (a['ori'] == b['ori'] == j['ori']):
+            errs.append('%s: strands of the parts and the joined record are %s, %s, %s' % (tag, a['ori'], b['ori'], j['ori']))
+        gap = abs(max(float(a['rs']), float(b['rs'])) - min(float(a['re']), float(b['re'])))
+        if gap > diff:
+            errs.append('%s: reference gap %.1f between the parts exceeds maxDifference %d' % (tag, gap, diff))
+        if j['rest'] != 'False':
+            pass        # the property says nothing about the flag of a joined record
+        J = [tuple(p) for p in j['pairs']]
+        A = [tuple(p) for p in a['pairs']]; B = [tuple(p) for p in b['pairs']]
+        union = sorted(set(A) | set(B))
+        subset = set(J) <= set(union)
+        rev = j['ori'] == '-'
+        uvalid = valid_matching(union, rev)
+        rec = dict(q=j['q'], r=j['r'], rev=rev, gap=gap, n_first=len(A), n_second=len(B), n_union=len(union), n_joined=len(J),
+                   union_valid=uvalid, subset=subset, equal=(J == union))
+        if not subset:
+            errs.append('%s: pairs %s are in neither part' % (tag, sorted(set(J) - set(union))[:4]))
+        if uvalid and J != union:
+            if tab is None:
+                tab = captured_rows(out)
+            sa, sb = part_segments(tab, a, False), part_segments(tab, b, True)
+            na = len([s for s in sa if s]) if sa is not None else -1
+            nb = len([s for s in sb if s]) if sb is not None else -1
+            outside = bool((sa is not None and len(sa) >= 2 and any(sa[1:])) or (sb is not None and len(sb) >= 2 and any(sb[1:])))
+            rec.update(segs_first=na, segs_second=nb, pairs_outside_segment0=outside)
+            errs.append('%s [union-clause q=%d r=%d]: the union of the parts\' pairs (%d first-pass + %d second-pass = %d pairs) is a valid '
+                        'matching but the joined record has %d pairs; missing %s%s; segments with pairs in the captured candidate rows: '
+                        'first pass %d, second pass %d' % (
+                            tag, j['q'], j['r'], len(A), len(B), len(union), len(J), sorted(set(union) - set(J))[:6],
+                            '' if subset else ' (and the joined record is not a subset of the union)', na, nb))
+        info.append(rec)
+    return errs, info
+
+
+F7_RE = re.compile(r'\[union-clause q=(\d+) r=(\d+)\]')
+
+
+
+
+class ModesStream(es.E2EStream):
+    name = 'e2e_modes'
+    quick_n, thorough_n = 3, 12
+    nq_quick, nq_thorough = 20, 32
+    quick_boundary, thorough_boundary = 2, 4
+
+    def gen(self, rng, tier):
+        base = seeded_rng(getattr(self, 'seed', 0), 'e2e-c08')
+        n = self.quick_n if tier == 'quick' else self.thorough_n
+        nq = self.nq_quick if tier == 'quick' else self.nq_thorough
+        cases = [dict(WITNESS_CASE)]                                   # the recorded F7 witness first
+        for k in range(n):
+            cases.append(dict(ds_seed=base.randint(1, 10 ** 9), nq=nq, extra=C08_PARAMS[k % len(C08_PARAMS)], gen='joinrich'))
+        outs = prewarm(cases)
+        # boundary runs: the same data set again with -diff equal to the reference gap of one of its joined records (gap == maxDifference:
+        # the parts do not depend on -diff, so that record must be joined again) and with -diff one below it
+        extra = []
+        want = self.quick_boundary if tier == 'quick' else self.thorough_boundary
+        for c, out in zip(cases, outs):
+            if len(extra) >= want:
+                break
+            try:
+                info = analyse(c, out)[1]
+            except Exception:
+                continue
+            gaps = sorted({int(r['gap']) for r in info if r['gap'] == int(r['gap']) and r['gap'] > 0})
+            if gaps:
+                g = gaps[len(gaps) // 2]
+                rest = [x for k, x in enumerate(c['extra']) if not (x == '-diff' or (k > 0 and c['extra'][k - 1] == '-diff'))]
+                extra.append(dict(c, extra=rest + ['-diff', str(g)], boundary='gap == diff'))
+                if tier != 'quick':
+                    extra.append(dict(c, extra=rest + ['-diff', str(g - 1)], boundary='gap == diff + 1'))
+        prewarm(extra)
+        return cases + extra
+
+    def impl(self, case):
+        return run_dataset(case)
+
+    def oracle(self, case, out):
+        return analyse(case, out)[0][:12]
+
+    def finding(self, case, out, viol):
+        m = F7_RE.search(viol)
+        if not m:
+            return None
+        q, r = int(m.group(1)), int(m.group(2))
+        for rec in analyse(case, out)[1]:
+            if rec['q'] == q and rec['r'] == r:
+                if (not rec['equal']) and rec['union_valid'] and rec['subset'] and rec.get('pairs_outside_segment0'):
+                    return 'F7'
+        return None
+
+    def classify(self, case, out):
+        k = ['params=%s' % (' '.join(case['extra']) or 'default')]
+        if case.get('boundary'):
+            k.append('boundary run: ' + case['boundary'])
+        diff = es.params_of(case['extra'])['diff']
+        try:
+            errs, info = analyse(case, out)
+        except Exception as e:
+            return k + ['analysis-error']
+        n1, n2 = len(rows_of(out, 'all', '_1') or []), len(rows_of(out, 'all', '_2') or [])
+        nj, nu = len(rows_of(out, 'joined', 'main') or []), len(rows_of(out, 'joined', '_1') or [])
+        k += ['first-pass records=%d+' % (10 * (n1 // 10)), 'second-pass records=%s' % ('0' if n2 == 0 else '1-4' if n2 < 5 else '5-9' if n2 < 10 else '10+'),
+              'joined records=%s' % ('0' if nj == 0 else '1-2' if nj < 3 else '3-5' if nj < 6 else '6+')]
+        for rec in info:
+            k.append('joined: %s' % ('equals the union' if rec['equal'] else 'union not a valid matching, proper subset' if not rec['union_valid']
+                                     else 'F7 (pairs outside segments[0] lost)' if rec.get('pairs_outside_segment0') and rec['subset'] else 'differs from a valid union'))
+            if rec['gap'] == diff:
+                k.append('joined: reference gap == maxDifference')
+            k.append('joined: reference gap %s' % ('0' if rec['gap'] == 0 else '<=3000' if rec['gap'] <= 3000 else '<=20000' if rec['gap'] <= 20000 else '>20000'))
+        # second-pass records that were not joined although a first-pass record of the same query exists: which guard failed
+        firsts = {r['q']: r for r in rows_of(out, 'all', '_1') or []}
+        jq = {(r['q'], r['r']) for r in rows_of(out, 'joined', 'main') or []}
+        for b in rows_of(out, 'all', '_2') or []:
+            a = firsts.get(b['q'])
+            if a is None or (b['q'], b['r']) in jq:
+                continue
+            if a['r'] != b['r']: k.append('not joined: other reference')
+            elif a['ori'] != b['ori']: k.append('not joined: other strand')
+            else:
+                gap = abs(max(float(a['rs']), float(b['rs'])) - min(float(a['re']), float(b['re'])))
+                k.append('not joined: gap > diff' if gap > diff else 'not joined: GUARD HOLDS')
+        return k
+
+    def nontrivial(self, case, out):
+        return json.dumps(case, sort_keys=True) if rows_of(out, 'joined', 'main') else None
+
+
+# the committed witness of F7 (also in known_findings.json): data set + parameters.  Query 69 on reference 15: first pass 14M (two segments
+# of 7 pairs), second pass 6M, union = 20 pairs (valid), joined record 13M: the 7 pairs of the second segment of the first-pass row are lost.
+WITNESS_CASE = dict(ds_seed=100, nq=24, extra=[], gen='joinrich')
+
+
+def prewarm(cases, workers=4):
+    """runs the data sets concurrently (each is four COMA subprocesses; results are cached by source hash) and returns the outputs"""
+    from concurrent.futures import ThreadPoolExecutor
+    if not cases:
+        return []
+    with ThreadPoolExecutor(max_workers=workers) as ex:
+        return list(ex.map(run_dataset, cases))
+
+
+class RunModel(es.RunModelStream):
+    """whole runs of the same data sets: program_run must reproduce every file of every mode"""
+    name = 'e2e_run_model_joinrich'
+    e2e_cls = ModesStream
+    quick_runs, thorough_runs = 3, 9
+    modes = C08_MODES
+
+    def gen(self, rng, tier):
+        src = self.e2e_cls()
+        src.seed = getattr(self, 'seed', 0)
+        cases = []
+        n = self.quick_runs if tier == 'quick' else self.thorough_runs
+        allc = src.gen(rng, tier)
+        chosen = [c for c in allc if c.get('boundary')] + allc           # boundary runs (gap == maxDifference), the F7 witness, then the rest
+        for c in chosen[:n]:
+            out = src.impl(c)
+            for m in self.modes:
+                cases.append(dict(dataset=c, mode=m, recorded=dict(mode=out['modes'][m], refs=out['refs'], queries=out['queries'],
+                                                                    table=[[list(k), v] for k, v in es.seed_table(out).items()])))
+        return cases
+
+
+class SharedSets(es.E2EStream):
+    """the data sets shared with the other properties (all four modes, cached across checks): fewer of them here"""
+    quick_n, thorough_n = 1, 4
+
+
+class SharedRunModel(es.RunModelStream):
+    e2e_cls = SharedSets
+
+
+STREAMS = [ModesStream(), RunModel(), SharedRunModel()]
